@@ -9,7 +9,7 @@
    Kinds: "toks" all token sequences to MaxToks tokens over Alpha (one chunk per first token);
           "wf" longer well-formed expressions; "filter"; "warn"; "ref".                              *)
 EXTENDS PathEvalUtil, Json, SequencesExt
-CONSTANTS Kinds, MaxToks
+CONSTANTS Kinds, MaxToks, WfMax
 VARIABLES kind, part, done
 
 Alpha == <<"/", "..", ".", "a", "b", "p:", "[k='v']", "[j=current()/../v]", "current()", " ", "../">>
@@ -28,21 +28,21 @@ AbsVec(k, ts, cur) ==
             /\ Assert((NoEmpty(npt) /\ npt # <<"/">>) => PTString(npt) = TrimSpace(s), <<"P3", s>>)
   IN [kind |-> k, expr |-> s, cur |-> cur, wf |-> px.ok /\ ok, npreds |-> NPreds(ts), mech |-> mech, fixed |-> fixed, intent |-> intent,
       npt |-> npt, str |-> PTString(npt), spaced |-> SpacedString(npt),
-      rpreds |-> RemovePreds(s, FALSE), rpredsFixed |-> RemovePreds(s, TRUE),
       uniq |-> UniqueString([loc |-> "m.yang:7", test |-> s], TRUE), uniqRaw |-> UniqueString([loc |-> "m.yang:7", test |-> s], FALSE)]
 \* longer well-formed expressions
 WfNames == {<<"a">>, <<"p:", "a">>, <<"a", "[k='v']">>, <<"q:", "b", "[j=current()/../v]">>, <<"p:", "b", "[k='v']", "[j=current()/../v]">>,
             <<"b", "[k='v']", "[k='v']", "[k='v']">>}
 RECURSIVE Slashed(_)
 Slashed(ns) == IF Len(ns) = 1 THEN ns[1] ELSE ns[1] \o <<"/">> \o Slashed(Tail(ns))
-WfNameSeqs == {<<x>> : x \in WfNames} \cup {<<x, y>> : x \in WfNames, y \in WfNames} \cup {<<x, y, z>> : x \in WfNames, y \in WfNames, z \in {<<"a">>, <<"b", "[k='v']">>}}
+WfNameSeqs == {<<x>> : x \in WfNames} \cup {<<x, y>> : x \in WfNames, y \in WfNames} \cup (IF WfMax < 3 THEN {} ELSE {<<x, y, z>> : x \in WfNames, y \in WfNames, z \in WfNames})
 RECURSIVE Ups(_)
 Ups(k) == IF k = 0 THEN << >> ELSE <<"..", "/">> \o Ups(k - 1)
 WfExprs == {<<"/">> \o Slashed(ns) : ns \in WfNameSeqs} \cup {Ups(k) \o Slashed(ns) : k \in 1..4, ns \in WfNameSeqs}
 
 \* MatchFilter
 Spaces == {"", "s", "t"}
-FilterVecs == {[kind |-> "filter", f |-> f, t |-> t, want |-> MatchFilter(f, t)] :
+FilterVecs == {[kind |-> "filter", f |-> f, t |-> t, want |-> MatchFilter(f, t),
+                 fcfg |-> f.on = "config", tcfg |-> t.tt = "config", topd |-> t.tt = "opd"] :      \* MatchConfigOnly, IsConfig, IsOpd
                  f \in [space : Spaces, local : {"*", "a", "b"}, on : {"full", "config", "opd"}],
                  t \in [space : Spaces, local : {"a", "b", "*"}, tt : {"none", "config", "opd"}]}
 \* Warning.Match
